@@ -39,7 +39,7 @@ type script struct {
 	self   byte   // '-', 'a', 'n'
 	kind   byte   // 'r' returns (nil slice when k = 0), 'z' returns an empty NON-NIL slice, 'e' plain error, 'c' context.Canceled, 'p' panics
 	k      int    // number of outputs (r/e/c)
-	pv     byte   // panic value: 'v' value, 'e' error, 'n' nil
+	pv     byte   // panic value: 'v' string, 'e' errors.New, 'n' nil, 'i' int, 's' struct value, 'b' []byte, 'c' custom error type, 'g' fmt.Stringer
 	pub    string // ok | err | panic | rej<k>: refuse exactly the calls that contain output id k
 	rej    int    // k of rej<k>, else -1
 	source string
@@ -57,7 +57,7 @@ func parseScript(s string) (script, error) {
 	switch f[1][0] {
 	case 'p':
 		sc.kind, sc.pv = 'p', f[1][1]
-		if len(f[1]) != 2 || !strings.ContainsRune("ven", rune(sc.pv)) {
+		if len(f[1]) != 2 || !strings.ContainsRune("venisbcg", rune(sc.pv)) {
 			return sc, fmt.Errorf("bad panic in %q", s)
 		}
 	case 'r', 'e', 'c', 'z':
@@ -200,6 +200,19 @@ type scenario struct {
 	yield   bool
 }
 
+// dynamic types a handler may pass to panic()
+type panicStruct struct {
+	A int
+	B string
+}
+type panicErr struct{ code int }
+
+func (e *panicErr) Error() string { return "custom error " + strconv.Itoa(e.code) }
+
+type panicStringer struct{}
+
+func (panicStringer) String() string { return "a fmt.Stringer" }
+
 var errHandler = errors.New("handler failed")
 var errPublish = errors.New("publish failed")
 
@@ -235,6 +248,16 @@ func (s *scenario) handler(msg *message.Message) ([]*message.Message, error) {
 			panic("handler panic value")
 		case 'e':
 			panic(errors.New("handler panic error"))
+		case 'i':
+			panic(42)
+		case 's':
+			panic(panicStruct{A: 7, B: "struct value"})
+		case 'b':
+			panic([]byte("byte slice"))
+		case 'c':
+			panic(&panicErr{code: 3})
+		case 'g':
+			panic(panicStringer{})
 		default:
 			var nothing interface{}
 			panic(nothing) // panic(nil): *runtime.PanicNilError since go1.21
@@ -382,18 +405,91 @@ func (p *scriptPub) Publish(topic string, msgs ...*message.Message) error {
 func (p *scriptPub) Close() error { return nil }
 
 // scripted subscriber: one channel the harness feeds.
+//
+// late mode (a subscriber that still holds messages when it is told to stop, e.g. a prefetch buffer): when the
+// context given to Subscribe is cancelled – Handler.Stop(), cancel of Run's context, Router.Close() – it hands out the
+// messages in `late` and only then closes its channel; Close() waits for that.
 type scriptSub struct {
-	ch   chan *message.Message
-	once sync.Once
+	ch       chan *message.Message
+	once     sync.Once
+	lateMode bool
+	late     []*message.Message
+	finished chan struct{} // late mode: the late messages were handed over and the channel is closed
+	raw      bool          // late mode: do not wait until the Router's receive loop has taken the late messages
+	lateRecv []chan struct{}
+	sawDone  int32 // late mode: the context was cancelled before the late messages were handed out
 }
 
 func (s *scriptSub) Subscribe(ctx context.Context, topic string) (<-chan *message.Message, error) {
+	if s.lateMode {
+		go func() {
+			defer close(s.finished)
+			defer s.once.Do(func() { close(s.ch) })
+			t := time.NewTimer(waitLimit())
+			select {
+			case <-ctx.Done():
+				atomic.StoreInt32(&s.sawDone, 1)
+				t.Stop()
+			case <-t.C:
+				atomic.StoreInt32(&degraded, 1)
+				atomic.AddInt32(&expired, 1)
+			}
+			for _, m := range s.late {
+				t := time.NewTimer(waitLimit())
+				select {
+				case s.ch <- m:
+					t.Stop()
+				case <-t.C:
+					atomic.StoreInt32(&degraded, 1)
+					atomic.AddInt32(&expired, 1)
+					return
+				}
+			}
+			// A message is "taken by the Router" for this check once its receive loop has it (router.run.received).
+			// Until then it sits in the Router's own subscriber decorator, which – since the fix that keeps its Close from
+			// hanging – drops what it holds when Close arrives (see checks/c02.findings.json); closing our channel only
+			// afterwards keeps that window out of this scenario.
+			if !s.raw {
+				for _, c := range s.lateRecv {
+					waitCh(c)
+				}
+			}
+		}()
+	}
 	return s.ch, nil
 }
 
 func (s *scriptSub) Close() error {
+	if s.lateMode {
+		waitCh(s.finished)
+		return nil
+	}
 	s.once.Do(func() { close(s.ch) })
 	return nil
+}
+
+// lateSpec: stop the handler / cancel Run's context / close the router after the first nEarly messages were fed;
+// the subscriber then hands out the remaining messages. hold: the early messages are still inside their handlers then.
+type lateSpec struct {
+	how    string // stop | cancel | close
+	hold   bool
+	nEarly int
+	raw    bool // request word lateraw: reproduction of the decorator's drop-on-close window, never generated
+}
+
+func (l *lateSpec) word() string {
+	if l.raw {
+		return "lateraw"
+	}
+	return "late"
+}
+
+func (l *lateSpec) String() string {
+	h := "-"
+	if l.hold {
+		h = "h"
+	}
+	return l.how + " " + h + " " + strconv.Itoa(l.nEarly)
 }
 
 // ---------------------------------------------------------------- output
@@ -429,6 +525,8 @@ func begin(out emitter, req string) {
 }
 
 // ---------------------------------------------------------------- running one scenario
+
+var scenarioCtr uint64
 
 var degraded int32 // set after the first expired wait: later waits are short (a failure is already certain)
 var expired int32  // number of expired waits; the run stops generating after a few (every one is already a reported failure)
@@ -470,12 +568,17 @@ func waitCh(c <-chan struct{}, more ...<-chan struct{}) bool {
 
 // runScenario returns the observation (one word per message, plus X<n> when Publish calls could not be attributed).
 func runScenario(out emitter, cfg config, scripts []script, rng *wh.Rng, yield bool) string {
+	return runScenarioLate(out, cfg, scripts, rng, yield, nil)
+}
+
+func runScenarioLate(out emitter, cfg config, scripts []script, rng *wh.Rng, yield bool, late *lateSpec) string {
 	s := &scenario{cfg: cfg, yield: yield}
 	n := len(scripts)
+	scenarioNo := atomic.AddUint64(&scenarioCtr, 1)
 	for i, sc := range scripts {
 		st := &msgState{idx: i, sc: sc, gate: make(chan struct{}), entered: make(chan struct{}), exited: make(chan struct{}),
 			pubGate: make(chan struct{}), inPub: make(chan struct{})}
-		st.msg = message.NewMessage(fmt.Sprintf("m%d", i), []byte("in"))
+		st.msg = message.NewMessage(fmt.Sprintf("s%d-m%d", scenarioNo, i), []byte("in"))
 		s.msgs = append(s.msgs, st)
 		s.byMsg.Store(st.msg, st)
 	}
@@ -488,7 +591,14 @@ func runScenario(out emitter, cfg config, scripts []script, rng *wh.Rng, yield b
 		out.Note("NewRouter: " + err.Error())
 		return "setup-failed"
 	}
-	sub := &scriptSub{ch: make(chan *message.Message)}
+	sub := &scriptSub{ch: make(chan *message.Message), finished: make(chan struct{})}
+	if late != nil {
+		sub.lateMode, sub.raw = true, late.raw
+		for _, st := range s.msgs[late.nEarly:] {
+			sub.late = append(sub.late, st.msg)
+			sub.lateRecv = append(sub.lateRecv, expectReceived(st.msg.UUID))
+		}
+	}
 	var hd *message.Handler
 	switch cfg.kind {
 	case "pub":
@@ -517,20 +627,72 @@ func runScenario(out emitter, cfg config, scripts []script, rng *wh.Rng, yield b
 	}
 	runDone := make(chan struct{})
 	var runErr error
+	runCtx, cancelRun := context.WithCancel(context.Background())
+	defer cancelRun()
 	go func() {
-		runErr = r.Run(context.Background())
+		runErr = r.Run(runCtx)
 		close(runDone)
 	}()
 	if !waitCh(r.Running(), runDone) {
 		out.Note("router did not start")
 	}
+	var closeDone chan struct{}
+	var closeErr error
+	if late != nil {
+		for i, st := range s.msgs {
+			close(st.pubGate)
+			if i >= late.nEarly || !late.hold {
+				close(st.gate)
+			}
+		}
+		for _, st := range s.msgs[:late.nEarly] {
+			t := time.NewTimer(waitLimit())
+			select {
+			case sub.ch <- st.msg:
+				t.Stop()
+			case <-t.C:
+				atomic.StoreInt32(&degraded, 1)
+				atomic.AddInt32(&expired, 1)
+			}
+		}
+		for _, st := range s.msgs[:late.nEarly] {
+			if late.hold {
+				waitCh(st.entered) // still inside its handler when the stop arrives
+			} else {
+				waitCh(st.exited, st.msg.Acked(), st.msg.Nacked())
+			}
+		}
+		switch late.how {
+		case "stop":
+			hd.Stop()
+		case "cancel":
+			cancelRun()
+		case "close":
+			closeDone = make(chan struct{})
+			go func() {
+				closeErr = r.Close()
+				close(closeDone)
+			}()
+		}
+		// the subscriber sees its context cancelled, hands out the late messages and closes its channel; everything it
+		// handed out has been taken by the Router when this returns (Router.Close below is the barrier for the rest)
+		waitCh(sub.finished)
+		if atomic.LoadInt32(&sub.sawDone) == 0 {
+			out.Note("late " + late.String() + ": the subscriber's context was not cancelled")
+		}
+		if late.hold {
+			for _, st := range s.msgs[:late.nEarly] {
+				close(st.gate)
+			}
+		}
+	}
 	// single message: gates open from the start; batch: all handlers parked at the gate, released in seeded order,
 	// and (every other batch) all publishing messages parked inside Publish together before any of them may go on
-	gatePub := n > 1 && rng.Intn(2) == 0
-	if n == 1 {
+	gatePub := late == nil && n > 1 && rng.Intn(2) == 0
+	if late == nil && n == 1 {
 		close(s.msgs[0].gate)
 	}
-	if !gatePub {
+	if late == nil && !gatePub {
 		for _, st := range s.msgs {
 			close(st.pubGate)
 		}
@@ -538,6 +700,9 @@ func runScenario(out emitter, cfg config, scripts []script, rng *wh.Rng, yield b
 	fed := make(chan struct{})
 	go func() {
 		defer close(fed)
+		if late != nil {
+			return
+		}
 		for _, st := range s.msgs {
 			t := time.NewTimer(waitLimit())
 			select {
@@ -550,7 +715,7 @@ func runScenario(out emitter, cfg config, scripts []script, rng *wh.Rng, yield b
 		}
 	}()
 	<-fed
-	if n > 1 {
+	if late == nil && n > 1 {
 		inflight := 0
 		for _, st := range s.msgs {
 			if waitCh(st.entered) {
@@ -601,12 +766,32 @@ func runScenario(out emitter, cfg config, scripts []script, rng *wh.Rng, yield b
 		}
 	}
 	for _, st := range s.msgs {
+		if late != nil {
+			break // a late message the Router drops never reaches a handler: Router.Close() alone is the barrier
+		}
 		if !waitCh(st.exited, st.msg.Acked(), st.msg.Nacked()) {
 			out.Note(fmt.Sprintf("message %d of %s %s: handler neither ended nor was the message settled", st.idx, cfg, st.sc.source))
 		}
 	}
 	closedOK := true
-	if err := r.Close(); err != nil {
+	if closeDone != nil {
+		t := time.NewTimer(closeTimeout + 10*time.Second)
+		select {
+		case <-closeDone:
+			t.Stop()
+			if closeErr != nil {
+				closedOK = false
+				out.Note("Router.Close: " + closeErr.Error())
+			}
+		case <-t.C:
+			closedOK = false
+			out.Note("Router.Close did not return")
+		}
+		if !closedOK {
+			atomic.StoreInt32(&degraded, 1)
+			atomic.AddInt32(&expired, 1)
+		}
+	} else if err := r.Close(); err != nil {
 		closedOK = false
 		atomic.StoreInt32(&degraded, 1)
 		atomic.AddInt32(&expired, 1)
@@ -642,6 +827,79 @@ func reqOf(cfg config, scripts []script) string {
 	return strings.Join(parts, " ")
 }
 
+func lateReqOf(l *lateSpec, cfg config, scripts []script) string {
+	parts := []string{l.word(), l.String(), cfg.String()}
+	for _, sc := range scripts {
+		parts = append(parts, sc.source)
+	}
+	return strings.Join(parts, " ")
+}
+
+// lates: stop / cancel / close arrives, then the subscriber hands out one or two more messages.
+func lates(out emitter, rng *wh.Rng, yield bool) {
+	lateScripts := [][]string{
+		{"-.r0.ok"}, {"-.r2.ok"}, {"-.e1.ok"}, {"-.pv.ok"}, {"a.r1.err"}, {"n.r1.ok"}, {"-.r2.rej1"}, {"-.r1.panic"},
+		{"-.r1.ok", "-.pi.ok"}, {"-.z0.ok", "n.e0.ok"},
+	}
+	i := 0
+	for _, how := range []string{"stop", "cancel", "close"} {
+		for _, hold := range []bool{false, true} {
+			for _, kind := range []string{"pub", "nil", "dis", "disdeco"} {
+				for _, mws := range []string{"", "o", "rP"} {
+					for _, ls := range lateScripts {
+						if giveUp() {
+							return
+						}
+						cfg := config{kind: kind, mws: mws}
+						if kind == "pub" || kind == "nil" {
+							cfg.topic = "out"
+						}
+						l := &lateSpec{how: how, hold: hold, nEarly: i % 3}
+						i++
+						var scripts []script
+						for e := 0; e < l.nEarly; e++ {
+							scripts = append(scripts, scriptFor(kind, []string{"-.r1.ok", "a.r0.ok", "-.e0.ok"}[(i+e)%3]))
+						}
+						for _, w := range ls {
+							scripts = append(scripts, scriptFor(kind, w))
+						}
+						req := lateReqOf(l, cfg, scripts)
+						begin(out, req)
+						out.Case(req, runScenarioLate(out, cfg, scripts, rng, yield, l))
+						out.Count("late.how." + how)
+						if hold && l.nEarly > 0 {
+							out.Count("late.early_still_in_handler")
+						}
+						out.Add("late.messages_after_cancel", len(ls))
+						for _, sc := range scripts[l.nEarly:] {
+							count(out, cfg, sc, true)
+						}
+					}
+				}
+			}
+		}
+	}
+}
+
+// scriptFor adapts a script to the handler kind: a NoPublishHandlerFunc cannot return messages, and only a real
+// publisher is ever consulted.
+func scriptFor(kind, w string) script {
+	sc := mustScript(w)
+	if kind == "dis" || kind == "disdeco" {
+		if sc.kind != 'p' && sc.k > 0 {
+			w = strings.Replace(w, "."+string(sc.kind)+strconv.Itoa(sc.k)+".", "."+string(sc.kind)+"0.", 1)
+		}
+		if sc.kind == 'z' {
+			w = strings.Replace(w, ".z0.", ".r0.", 1)
+		}
+	}
+	if kind != "pub" {
+		f := strings.Split(w, ".")
+		w = f[0] + "." + f[1] + ".ok"
+	}
+	return mustScript(w)
+}
+
 func mustScript(s string) script {
 	sc, err := parseScript(s)
 	if err != nil {
@@ -658,12 +916,15 @@ var topics = []string{"out", "", "topic with space/and.slash", "out"}
 func resultsFor(kind string) []string {
 	if kind == "dis" || kind == "disdeco" {
 		// a NoPublishHandlerFunc cannot return messages; outputs come from output-adding middleware only
-		return []string{"r0", "e0", "c0", "pv", "pe", "pn"}
+		return []string{"r0", "e0", "c0", "pv", "pe", "pn", "pi", "ps", "pb", "pc", "pg"}
 	}
-	return []string{"r0", "z0", "r1", "r3", "e0", "e1", "e3", "c0", "c2", "pv", "pe", "pn"}
+	return []string{"r0", "z0", "r1", "r3", "e0", "e1", "e3", "c0", "c2", "pv", "pe", "pn", "pi", "ps", "pb", "pc", "pg"}
 }
 
-func pubsFor(kind string) []string {
+func pubsFor(kind, res string) []string {
+	if kind == "pub" && res[0] == 'p' {
+		return []string{"ok", "panic"} // the publisher is never reached after a handler panic
+	}
 	if kind == "pub" {
 		// rej<k>: the verdict depends on the messages of the call – every handler output position and a middleware output
 		return []string{"ok", "err", "panic", "rej0", "rej1", "rej2", "rej100", "rej101"}
@@ -714,7 +975,7 @@ func matrix(out emitter, rng *wh.Rng, yield bool) {
 		for _, mws := range mwPrefixes {
 			for _, self := range []string{"-", "a", "n"} {
 				for _, res := range resultsFor(kind) {
-					for _, pb := range pubsFor(kind) {
+					for _, pb := range pubsFor(kind, res) {
 						cfg := config{kind: kind, mws: mws}
 						if kind == "pub" || kind == "nil" {
 							cfg.topic = topics[ti%len(topics)]
@@ -738,11 +999,11 @@ func randomScript(rng *wh.Rng, kind string) script {
 	self := rng.Pick("-", "-", "-", "a", "n")
 	var res string
 	if kind == "dis" || kind == "disdeco" {
-		res = rng.Pick("r0", "r0", "e0", "c0", "pv", "pe", "pn")
+		res = rng.Pick("r0", "r0", "r0", "e0", "c0", "pv", "pe", "pn", "pi", "ps", "pb", "pc", "pg")
 	} else {
 		switch rng.Intn(10) {
 		case 0:
-			res = rng.Pick("pv", "pe", "pn")
+			res = rng.Pick("pv", "pe", "pn", "pi", "ps", "pb", "pc", "pg")
 		case 1:
 			res = rng.Pick("e", "c") + wh.Itoa(rng.Intn(4))
 		case 2:
@@ -799,12 +1060,35 @@ func batches(out emitter, rng *wh.Rng, count_ int, yield bool) {
 
 var hookCtr uint64
 
-func installYieldHook(seed uint64) {
+var yieldSeed uint64
+var yieldOn int32
+
+// received: message UUID -> channel closed when the receive loop of the Router has taken that message
+// (hook point router.run.received, right after `for msg := range h.messagesCh`).
+var received sync.Map
+
+func expectReceived(uuid string) chan struct{} {
+	c := make(chan struct{})
+	received.Store(uuid, c)
+	return c
+}
+
+// installHook: always records router.run.received; after installYieldHook also injects yields at the handle.* points.
+func installHook() {
 	message.SetVerifHook(func(name string, args ...string) {
+		if name == "router.run.received" && len(args) >= 2 {
+			if c, ok := received.LoadAndDelete(args[1]); ok {
+				close(c.(chan struct{}))
+			}
+			return
+		}
+		if atomic.LoadInt32(&yieldOn) == 0 {
+			return
+		}
 		if name != "router.handle.before_publish" && name != "router.handle.before_settle" && name != "router.handle.start" {
 			return
 		}
-		x := wh.NewRng(seed ^ atomic.AddUint64(&hookCtr, 1)).Next()
+		x := wh.NewRng(atomic.LoadUint64(&yieldSeed) ^ atomic.AddUint64(&hookCtr, 1)).Next()
 		switch x % 8 {
 		case 0, 1, 2:
 			runtime.Gosched()
@@ -812,6 +1096,11 @@ func installYieldHook(seed uint64) {
 			time.Sleep(time.Duration(x>>8%200) * time.Microsecond)
 		}
 	})
+}
+
+func installYieldHook(seed uint64) {
+	atomic.StoreUint64(&yieldSeed, seed)
+	atomic.StoreInt32(&yieldOn, 1)
 }
 
 const childEnv = "WMVERIF_C02_CHILD"
@@ -908,10 +1197,21 @@ func main() {
 	}
 	out := &childOut{}
 	rng := wh.NewRng(a.Seed)
+	installHook()
 	if a.Replay != "" {
 		f := strings.Fields(a.Replay)
+		var late *lateSpec
+		if len(f) >= 6 && (f[0] == "late" || f[0] == "lateraw") {
+			n, err := strconv.Atoi(f[3])
+			if err != nil || n < 0 || n >= len(f)-5 || (f[1] != "stop" && f[1] != "cancel" && f[1] != "close") || (f[2] != "h" && f[2] != "-") {
+				fmt.Fprintln(os.Stderr, "cannot replay: malformed late request")
+				os.Exit(2)
+			}
+			late = &lateSpec{how: f[1], hold: f[2] == "h", nEarly: n, raw: f[0] == "lateraw"}
+			f = append([]string{"run"}, f[4:]...)
+		}
 		if len(f) < 3 || f[0] != "run" {
-			fmt.Fprintln(os.Stderr, "cannot replay: not a run request")
+			fmt.Fprintln(os.Stderr, "cannot replay: not a run/late request")
 			os.Exit(2)
 		}
 		cfg, err := parseConfig(f[1])
@@ -930,11 +1230,12 @@ func main() {
 		}
 		installYieldHook(a.Seed)
 		begin(out, a.Replay)
-		out.Case(a.Replay, runScenario(out, cfg, scripts, rng, true))
+		out.Case(a.Replay, runScenarioLate(out, cfg, scripts, rng, true, late))
 		return
 	}
 	// pass 1: no hook installed, no yields
 	matrix(out, rng, false)
+	lates(out, rng, false)
 	nb := 600
 	if a.Thorough() {
 		nb = 40000
@@ -942,6 +1243,7 @@ func main() {
 	batches(out, rng, nb/2, false)
 	// pass 2: yield injection at router.handle.start / before_publish / before_settle and inside Publish
 	installYieldHook(a.Seed)
+	lates(out, rng, true)
 	if a.Thorough() {
 		matrix(out, rng, true)
 	}
